@@ -21,7 +21,7 @@ import sys
 import hypothesis
 from hypothesis import HealthCheck, Phase, settings
 from hypothesis import strategies as st
-from hypothesis.stateful import RuleBasedStateMachine, precondition, rule, run_state_machine_as_test
+from hypothesis.stateful import RuleBasedStateMachine, initialize, precondition, rule, run_state_machine_as_test
 
 from dep_logic.markers import parse_marker
 
@@ -33,7 +33,7 @@ CASE_TIMEOUT = 30.0
 MOD = __name__
 META = {
     "rule": "Hypothesis rule-based state machine: histories of <=30 (quick) / <=50 (thorough) operations parse / & / | / reparse / "
-    "variant over 16 base atoms x 4 spellings; every step is a probe compared warm vs cold. Non-trivial = a probe whose "
+    "variant over 22 base atoms x 4 spellings; every step is a probe compared warm vs cold. Non-trivial = a probe whose "
     "history contains, before it, an operation using one of the probe's atoms in a different spelling (equal but differently "
     "built operand); distinct by (history prefix, probe).",
     "assumptions": [
@@ -47,6 +47,9 @@ BASE = [
     ("python_version", "==", "3.9"), ("python_version", "!=", "3.8"), ("sys_platform", "==", "linux"), ("sys_platform", "!=", "win32"),
     ("sys_platform", "==", "win32"), ("os_name", "==", "nt"), ("os_name", "!=", "nt"), ("extra", "==", "foo-bar"), ("extra", "!=", "foo-bar"),
     ("platform_release", ">=", "5.4"), ("sys_platform", "in", "linux"), ("python_full_version", "~=", "3.8.2"),
+    # bounds one ~= step apart and X.Y / X.Y.0 twins: the rendering heuristics look at how a bound is *spelled*
+    ("python_full_version", "<", "4.0"), ("python_version", ">=", "3.10"), ("python_full_version", "<=", "3.10.0"), ("python_full_version", ">", "3.10.0"),
+    ("python_version", "<", "4.0"), ("python_full_version", ">=", "3.10"),
 ]
 REFL = M.REFLECT
 
@@ -197,9 +200,15 @@ def make_machine(acc, max_steps):
         def __init__(self):
             super().__init__()
             harness.reset_caches()
+            self.pool = list(range(len(BASE)))
             self.ops = []
             self.results = []
             self.warm = []
+
+        @initialize(pool=st.lists(st.sampled_from(range(len(BASE))), min_size=3, max_size=6, unique=True))
+        def choose_pool(self, pool):
+            # a small atom pool per history, so that cache keys collide
+            self.pool = pool
 
         def _do(self, op):
             self.ops.append(op)
@@ -207,9 +216,11 @@ def make_machine(acc, max_steps):
             self.results.append(r)
             self.warm.append(observe(r))
 
-        @rule(tree=_tree)
-        def parse(self, tree):
-            self._do(["parse", tree])
+        @rule(data=st.data())
+        def parse(self, data):
+            atom = st.tuples(st.just("atom"), st.sampled_from(self.pool), st.sampled_from(range(4))).map(list)
+            tree = st.recursive(atom, lambda ch: st.tuples(st.sampled_from(["and", "or"]), st.lists(ch, min_size=2, max_size=3)).map(list), max_leaves=3)
+            self._do(["parse", data.draw(tree)])
 
         @precondition(lambda self: len(self.results) >= 1)
         @rule(data=st.data(), kind=st.sampled_from(["and", "or"]))
